@@ -31,7 +31,9 @@ type taintAnalysis struct {
 func carriesData(t types.Type) bool {
 	switch u := t.Underlying().(type) {
 	case *types.Basic:
-		return u.Info()&types.IsString != 0 || u.Kind() == types.UnsafePointer
+		// single octets and runes carry data too: a loop that copies a secret octet by octet ("printable
+		// preview", hex dump, case folding) moves it as surely as copy() does
+		return u.Info()&types.IsString != 0 || u.Kind() == types.UnsafePointer || u.Kind() == types.Uint8 || u.Kind() == types.Int32
 	case *types.Slice, *types.Array, *types.Map, *types.Interface, *types.Struct, *types.Pointer:
 		return true
 	}
@@ -245,6 +247,10 @@ func (ta *taintAnalysis) step(fn *ssa.Function) {
 					if f, base, ok := fieldAddrOf(x.X); ok && f.Name() == "secret" && typeIs(base.Type(), modPath, "crypter") {
 						ta.mark(x, "the connection's shared secret (crypter.secret)")
 					}
+					// the body octets of a packet: once de-obfuscated they are the START data / CONTINUE user_msg in clear
+					if f, base, ok := fieldAddrOf(x.X); ok && f.Name() == "Body" && isByteSlice(f.Type()) && typeIs(derefT(base.Type()), modPath, "Packet") {
+						ta.mark(x, "the body octets of a packet (Packet.Body: the password-bearing fields in clear once de-obfuscated)")
+					}
 				}
 			case *ssa.Field, *ssa.FieldAddr:
 				// field projections are tainted by their own type only (typeSeed above)
@@ -335,6 +341,10 @@ func (ta *taintAnalysis) step(fn *ssa.Function) {
 							ta.cells[a] = w
 							ta.changed = true
 						}
+					}
+					// an element of a slice made in this function (out := make([]byte, n); out[i] = c)
+					if ms, ok := addr.(*ssa.MakeSlice); ok && addr != x.Addr {
+						ta.mark(ms, w)
 					}
 				}
 			case *ssa.MapUpdate:
